@@ -132,6 +132,7 @@ impl SuperCallChecker {
   fn node_is_inside_function(&self, node: ast_view::Node) -> bool {
     fn inside_function(
       root_range: SourceRange,
+      target_range: SourceRange,
       cur_node: ast_view::Node,
     ) -> bool {
       // Stop recursion if the current node gets out of root_node.
@@ -139,17 +140,35 @@ impl SuperCallChecker {
         return false;
       }
 
+      // Everything that has its own `this` (or cannot contain a `super()`
+      // call of the constructor being checked) is a boundary.
       if matches!(
         cur_node,
-        ast_view::Node::Function(_) | ast_view::Node::ArrowExpr(_)
+        ast_view::Node::Function(_)
+          | ast_view::Node::ArrowExpr(_)
+          | ast_view::Node::Constructor(_)
+          | ast_view::Node::GetterProp(_)
+          | ast_view::Node::SetterProp(_)
+          | ast_view::Node::StaticBlock(_)
       ) {
         return true;
       }
 
-      inside_function(root_range, cur_node.parent().unwrap())
+      // The initializer of a class field is evaluated with the instance of
+      // that class as `this`; its computed key is not.
+      let initializer = match cur_node {
+        ast_view::Node::ClassProp(prop) => prop.value.map(|v| v.range()),
+        ast_view::Node::PrivateProp(prop) => prop.value.map(|v| v.range()),
+        _ => None,
+      };
+      if initializer.map_or(false, |r| r.contains(&target_range)) {
+        return true;
+      }
+
+      inside_function(root_range, target_range, cur_node.parent().unwrap())
     }
 
-    inside_function(self.root_range, node)
+    inside_function(self.root_range, node.range(), node)
   }
 }
 
